@@ -42,6 +42,8 @@ class Module:
     imports: dict[str, tuple] = field(default_factory=dict, repr=False)   # local -> ('mod', dotted) | ('obj', dotted_mod, attr)
     defs: dict[str, ast.AST] = field(default_factory=dict, repr=False)    # module-level name -> defining node (last wins)
     is_pkg: bool = False
+    line_map: dict[int, int] = field(default_factory=dict, repr=False)    # normalised text line -> line of the file (sa/inline.py)
+    norm_log: list[str] = field(default_factory=list, repr=False)
 
 
 @dataclass(eq=False)
@@ -646,4 +648,11 @@ def presets(p: Project) -> dict[str, dict]:
 
 
 def loc(m: Module, node: ast.AST) -> str:
-    return f"{PKG}/{m.rel}:{getattr(node, 'lineno', 0)}"
+    ln = getattr(node, 'lineno', 0)
+    if m.line_map:
+        # the module was normalised (helpers inlined): report the line of the file the construct came from
+        k = ln
+        while k > 0 and k not in m.line_map:
+            k -= 1
+        ln = m.line_map.get(k, ln)
+    return f"{PKG}/{m.rel}:{ln}"
